@@ -233,4 +233,18 @@ class C10(SimCheck):
     required_counters = ["c10.sockets_opened", "sim.with_socket_faults", "sim.tcp_transmissions"]
 
 
-CHECKS = {"C19": C19, "C02": C02, "C03": C03, "C04": C04, "C18": C18, "C01": C01, "C05": C05, "C06": C06, "C07": C07, "C10": C10}
+class C20(SimCheck):
+    pid = "C20"
+    rule = ("metamorphic: each generated scenario (one server; TCP forced or reached through truncated UDP answers; 1-8 concurrently queued queries; inbound read chunks down to 1 byte; "
+            "short-write / would-block patterns; pending-write notification on/off; fast open on/off; zero-length datagrams) is run twice - as generated, and with whole transport and no zero-length "
+            "datagrams - under the same seed; both runs must give the same per-request (status, address count, which server answers were delivered) and the same set of messages at the server. "
+            "Independently: every TCP frame at the server decodes, a delivered truncated UDP answer is followed by the same question over TCP unless IGNTC. Scenarios whose connection is torn down "
+            "abnormally are run but not compared. non-trivial = some message was delivered in >= 2 reads or written in >= 2 writes; distinct = distinct scenario text")
+    required_counters = ["c20.metamorphic_pairs", "c20.split_reads", "c20.short_writes", "c20.tc_upgraded_to_tcp"]
+    CASES_Q = 2500
+    FUZZ_Q = 3000
+    CASES_T = 120000
+    FUZZ_T = 600000
+
+
+CHECKS = {"C19": C19, "C02": C02, "C03": C03, "C04": C04, "C18": C18, "C01": C01, "C05": C05, "C06": C06, "C07": C07, "C10": C10, "C20": C20}
